@@ -30,6 +30,11 @@ REQUIRED_CLASSES = ['backslash_escape', 'quote_in_pattern', 'amount_eq_boundary'
 @st.composite
 def case_st(draw, relative=False):
     rules = draw(csvrules.csv_file(max_rules=8, escapes=True, quotes=True, relative=relative, tag_only_p=2))
+    # the same pattern/merchant/category repeated with different modifiers (e.g. rent that changed during the year)
+    if rules and draw(st.integers(0, 2)) == 0:
+        src = draw(st.sampled_from(rules))
+        twin = dict(src, mods=draw(st.lists(st.one_of(csvrules.amount_mod, csvrules.date_mod), min_size=1, max_size=2)))
+        rules.insert(draw(st.integers(0, len(rules))), twin)
     # rows with neither category nor tags (a no-op row in the CSV)
     if rules and draw(st.integers(0, 4)) == 0:
         i = draw(st.integers(0, len(rules) - 1))
